@@ -167,12 +167,14 @@ struct Ev {
 };
 
 // --------------------------------------------------------------------------- decisions
-enum ActK : uint8_t { A_NONE, A_CANCEL, A_CHANGE, A_CANCEL_CHANGE, A_CHANGEW, A_CANCEL_CHANGEW, A_SUCCEED, A_FAIL, A_SUCCEED_ID, A_FAIL_ID, A_PLAN_CHANGE, A_PLAN_CHANGEW, A_PLAN_CLEAR, A_PLAN_REMOVE };
+enum ActK : uint8_t { A_NONE, A_CANCEL, A_CHANGE, A_CANCEL_CHANGE, A_CHANGEW, A_CANCEL_CHANGEW, A_SUCCEED, A_FAIL, A_SUCCEED_ID, A_FAIL_ID, A_PLAN_CHANGE, A_PLAN_CHANGEW, A_PLAN_CLEAR, A_PLAN_REMOVE,
+	// composite decisions: several actions in one callback invocation
+	A_CHANGE_CANCEL, A_CHANGE2, A_FAIL_SUCCEED, A_SUCCEED_FAIL, A_SUCCEED_CHANGE, A_CHANGE_SUCCEED, A_CHANGEW_CHANGE, A_CHANGE_CHANGEW };
 struct Act { uint8_t k, a, b, pv; };
 
 enum MenuFlag : unsigned {
 	MF_PHASE_REQ = 1, MF_GUARD_CANCEL = 2, MF_GUARD_REQ = 4, MF_PAYLOAD = 8, MF_PAYLOAD2 = 16,
-	MF_REPORT = 32, MF_REPORT_OTHER = 64, MF_PLAN_EDIT = 128, MF_LIFE_EDIT = 256, MF_GUARD_REPORT = 512, MF_INJ_DECIDE = 1024
+	MF_REPORT = 32, MF_REPORT_OTHER = 64, MF_PLAN_EDIT = 128, MF_LIFE_EDIT = 256, MF_GUARD_REPORT = 512, MF_INJ_DECIDE = 1024, MF_COMPOSITE = 2048
 };
 
 enum DrvMode : uint8_t { DM_DFS, DM_STRATEGY, DM_HOSTILE, DM_QUIET };
@@ -450,7 +452,14 @@ inline void perform_full(C& c, const Act& a, uint8_t sid, uint8_t inj, uint8_t m
 	case A_PLAN_CHANGE: do_plan_append(c, sid, inj, meth, a.a, a.b, 0); break;
 	case A_PLAN_CHANGEW: do_plan_append(c, sid, inj, meth, a.a, a.b, a.pv); break;
 	case A_PLAN_CLEAR: do_plan_clear(c, sid, inj, meth); break;
+	case A_FAIL_SUCCEED: do_report(c, sid, inj, meth, false, false, 0); do_report(c, sid, inj, meth, true, false, 0); break;
+	case A_SUCCEED_FAIL: do_report(c, sid, inj, meth, true, false, 0); do_report(c, sid, inj, meth, false, false, 0); break;
+	case A_SUCCEED_CHANGE: do_report(c, sid, inj, meth, true, false, 0); do_change(c, sid, inj, meth, a.a, 0); break;
+	case A_CHANGE_SUCCEED: do_change(c, sid, inj, meth, a.a, 0); do_report(c, sid, inj, meth, true, false, 0); break;
 #endif
+	case A_CHANGE2: do_change(c, sid, inj, meth, a.a, 0); do_change(c, sid, inj, meth, a.b, 0); break;
+	case A_CHANGEW_CHANGE: do_change(c, sid, inj, meth, a.a, a.pv); do_change(c, sid, inj, meth, a.b, 0); break;
+	case A_CHANGE_CHANGEW: do_change(c, sid, inj, meth, a.a, 0); do_change(c, sid, inj, meth, a.b, a.pv); break;
 	default: break;
 	}
 }
@@ -488,6 +497,7 @@ inline void visit_guard(C& c, uint8_t sid, uint8_t inj, uint8_t meth, bool thiso
 	case A_CANCEL: do_cancel(c, sid, inj, meth); break;
 	case A_CANCEL_CHANGE: do_cancel(c, sid, inj, meth); do_change(c, sid, inj, meth, a.a, 0); break;
 	case A_CANCEL_CHANGEW: do_cancel(c, sid, inj, meth); do_change(c, sid, inj, meth, a.a, a.pv); break;
+	case A_CHANGE_CANCEL: do_change(c, sid, inj, meth, a.a, 0); do_cancel(c, sid, inj, meth); break;
 	default: perform_full(c, a, sid, inj, meth); break;
 	}
 }
